@@ -561,3 +561,68 @@ def flags_family(run, replay):
                           "status and files compared); only a reproducible behavioural difference is a violation",
                      assumptions=["--seed (documented as time dependent), --help, and the download/upload/completion/help commands are not run",
                                   "commands are run on a two-tree Newick standard input; a command that fails identically both ways is not informative"])
+
+
+# ------------------------------------------------------------------------------------------------
+# C18: determinism
+
+DET_MODEL_CFG = """SPECIFICATION Spec
+CONSTANTS
+  Keys = {%s}
+  Special = {%s}
+  Pattern = "%s"
+INVARIANTS SameOutput Meant
+CHECK_DEADLOCK FALSE
+"""
+
+
+@pipeline("C18")
+def determinism_family(run, replay):
+    run.build_harness()
+    gotree = run.build_gotree()
+    keys = "1, 2, 3, 4, 5" if run.tier == "quick" else "1, 2, 3, 4, 5, 6"
+    special = "4, 5" if run.tier == "quick" else "5, 6"
+    for pat in ("dumpSorted", "dropByValue", "applyAll"):
+        vk.run_model(run, "Determinism-" + pat, "Determinism.tla", DET_MODEL_CFG % (keys, special, pat), workers=4, heap="4g")
+    # the order-sensitive patterns the code used to contain: TLC must find the two runs that differ
+    sens = {}
+    for pat in ("dump", "dropLast2"):
+        out = vk.run_model(run, "Determinism-" + pat, "Determinism.tla", DET_MODEL_CFG % (keys, special, pat), workers=4, heap="4g", expect_ok=False)
+        sens[pat] = "is violated" in out
+    run.extra["order_sensitive_patterns_refuted_by_tlc"] = sens
+    if not all(sens.values()):
+        raise vk.Infra("the determinism model did not refute an order-sensitive pattern (vacuous model)")
+    reps = 3 if run.tier == "quick" else 12
+    shards = vk.NCPU
+    cfg = "SPECIFICATION Spec\nPOSTCONDITION Accepted\nCHECK_DEADLOCK FALSE\n"
+
+    def job(i):
+        def f():
+            d = os.path.join(run.work, "det-%d" % i)
+            os.makedirs(d, exist_ok=True)
+            path = os.path.join(d, "det.ndjson")
+            s = vk.run_driver(run, ["det", "--gotree", gotree, "--out", path, "--seed", str(run.seed), "--reps", str(reps),
+                                    "--shard", str(i), "--nshards", str(shards)], path, timeout=3000)
+            r = vk.validate_trace(run, path, "TraceDet.tla", cfg)
+            r["summary"] = s
+            return r
+        return f
+    res = vk.parallel([job(i) for i in range(shards)])
+    collect(run, res)
+    run.traces = sum(r["summary"].get("events", 0) for r in res)
+    run.extra["command_templates"] = res[0]["summary"].get("templates", 0)
+    run.extra["runs_with_exit_status_0"] = sum(r["summary"].get("runs_rc0", 0) for r in res)
+    run.extra["repetitions_per_key"] = reps
+    for r in res[:2]:
+        run.samples += vk.sample_events(r["path"], 1)
+    if replay:
+        run.replay_of = replay
+    return vk.finish(run,
+                     rule="model: self-composition of the map-ranging patterns of the code (Determinism.tla): two runs, each with its own "
+                          "iteration order, must produce the same output - TLC proves it for the sorted / by-value / index-based patterns and "
+                          "refutes the order-sensitive ones; real code: every command template (inputs incl. protein alignments with X, "
+                          "IUPAC nucleotides) run repeatedly in new processes with the same options and seed, with 1 and 4 threads, plus "
+                          "library calls repeated in one process; TLC checks that a key always shows the same output (bag of records when "
+                          "threads > 1)",
+                     assumptions=["dates and scratch directory names written into log files are masked", "absence of order dependence at a site "
+                                  "the model does not describe rests on the repetitions (new process each time)"])
